@@ -66,7 +66,7 @@ impl Prop for C06 {
     fn runs(&self, tier: Tier) -> u64 {
         match tier {
             Tier::Quick => 1_200_000,
-            Tier::Thorough => 100_000_000,
+            Tier::Thorough => 60_000_000,
         }
     }
     fn run_chunk(&self, ctx: &Ctx, indices: &[u64]) -> Vec<RunReport> {
